@@ -58,8 +58,13 @@ Proof.
   intros Hty Hnt Hoff. unfold cand_types, net_types in *. simpl in Hty, Hnt.
   enum Hty; enum Hnt; destruct has_agent;
     cbv [TypePreference spec_type_pref eff_offset CandidateType_Preference NetworkType_IsTCP
-         rfc_type_pref is_tcp default_offset defaultTCPPriorityOffset Z.eqb orb Pos.eqb wrap]; try reflexivity;
-    repeat match goal with |- context [Z.ltb ?a ?b] => destruct (Z.ltb_spec a b) end;
+         rfc_type_pref is_tcp default_offset defaultTCPPriorityOffset Z.eqb orb andb negb Pos.eqb wrap]; try reflexivity;
+    repeat match goal with
+           | |- context [Z.ltb ?a ?b] => destruct (Z.ltb_spec a b)
+           | |- context [Z.leb ?a ?b] => destruct (Z.leb_spec a b)
+           | |- context [Z.gtb ?a ?b] => rewrite (Z.gtb_ltb a b)
+           | |- context [Z.geb ?a ?b] => rewrite (Z.geb_leb a b)
+           end;
     try lia.
 Qed.
 
@@ -101,7 +106,9 @@ Proof. repeat split; reflexivity. Qed.
 Lemma relay_pref_spec s : relayProtocolPreference s = spec_relay_pref s.
 Proof.
   unfold relayProtocolPreference, spec_relay_pref.
-  repeat match goal with |- context [String.eqb ?a ?b] => destruct (String.eqb a b) end; reflexivity.
+  (* independent of the order of the cases: a protocol equal to one literal is a closed string *)
+  repeat match goal with |- context [String.eqb ?a ?b] => destruct (String.eqb_spec a b); [subst; vm_compute; reflexivity|] end;
+    reflexivity.
 Qed.
 
 Lemma relay_pref_range s : 0 <= relayProtocolPreference s <= 3.
